@@ -265,12 +265,7 @@ func TestLbvcScenarioRetention(t *testing.T) {
 			}
 		}
 	}
-	if len(problems) > 0 {
-		if len(problems) > 6 {
-			problems = append(problems[:6], fmt.Sprintf("... and %d more", len(problems)-6))
-		}
-		t.Fatalf("LBVC-REPRODUCED (obligation %s): %s", os.Getenv("LBVC_OBLIGATION"), strings.Join(problems, "; "))
-	}
+	lbvcScenarioTail(t, problems)
 }
 
 func maxInt(a, b int) int {
@@ -436,6 +431,97 @@ func TestLbvcScenarioCompaction(t *testing.T) {
 			}
 		}
 	}
+	lbvcScenarioTail(t, problems)
+}
+
+// High watermark: never moves backwards; a committed reader is never handed an offset above it, and gets every
+// committed message once and in order - also when it was parked beyond the watermark and the watermark then jumps
+// over a segment roll.
+func TestLbvcScenarioHighWatermark(t *testing.T) {
+	var problems []string
+	for _, segBytes := range []int64{64, 150, 1 << 20} {
+		for _, park := range []bool{false, true} {
+			l, cleanup := lbvcLog(t, Options{MaxSegmentBytes: segBytes})
+			desc := fmt.Sprintf("segment bytes %d, reader parked beyond the watermark %v", segBytes, park)
+			for i := 0; i < 3; i++ {
+				l.Append([]*Message{lbvcMsg(i, 0)})
+			}
+			l.SetHighWatermark(1)
+			start := int64(0)
+			if park {
+				start = 2
+			}
+			r, err := l.NewReader(start, false)
+			if err != nil {
+				problems = append(problems, desc+": NewReader: "+err.Error())
+				cleanup()
+				continue
+			}
+			var got []int64
+			hb := make([]byte, 28)
+			read := func(upTo int64) {
+				for {
+					if len(got) > 0 && got[len(got)-1] >= upTo {
+						return
+					}
+					if len(got) == 0 && upTo < start {
+						return
+					}
+					ctx, cancel := context.WithTimeout(context.Background(), 300*time.Millisecond)
+					_, off, _, _, err := r.ReadMessage(ctx, hb)
+					cancel()
+					if err != nil {
+						return
+					}
+					if hw := l.HighWatermark(); off > hw {
+						problems = append(problems, desc+fmt.Sprintf(": committed reader was handed offset %d while the high watermark is %d", off, hw))
+					}
+					got = append(got, off)
+				}
+			}
+			read(1)
+			for i := 3; i < 12; i++ {
+				l.Append([]*Message{lbvcMsg(i, 0)})
+			}
+			// stale and repeated updates must not lower the watermark
+			for _, hw := range []int64{9, 6, 9, 0, 11} {
+				before := l.HighWatermark()
+				l.SetHighWatermark(hw)
+				if after := l.HighWatermark(); after < before {
+					problems = append(problems, desc+fmt.Sprintf(": high watermark moved backwards %d -> %d (SetHighWatermark(%d))", before, after, hw))
+				}
+			}
+			read(11)
+			var want []int64
+			for o := start; o <= 11; o++ {
+				want = append(want, o)
+			}
+			if fmt.Sprint(got) != fmt.Sprint(want) {
+				problems = append(problems, desc+fmt.Sprintf(": committed reader from %d returned %v, committed are %v", start, got, want))
+			}
+			cleanup()
+		}
+	}
+	// a follower adopts the leader's watermark before it has the data: the watermark may be ahead of the log end,
+	// and must still never be lowered
+	{
+		l, cleanup := lbvcLog(t, Options{MaxSegmentBytes: 1 << 20})
+		for i := 0; i < 4; i++ {
+			l.Append([]*Message{lbvcMsg(i, 0)})
+		}
+		for _, hw := range []int64{2, 9, 6, 3, 9, 12, 5} {
+			before := l.HighWatermark()
+			l.SetHighWatermark(hw)
+			if after := l.HighWatermark(); after < before {
+				problems = append(problems, fmt.Sprintf("log end 3: high watermark moved backwards %d -> %d (SetHighWatermark(%d))", before, after, hw))
+			}
+		}
+		cleanup()
+	}
+	lbvcScenarioTail(t, problems)
+}
+
+func lbvcScenarioTail(t *testing.T, problems []string) {
 	if len(problems) > 0 {
 		if len(problems) > 6 {
 			problems = append(problems[:6], fmt.Sprintf("... and %d more", len(problems)-6))
